@@ -167,7 +167,7 @@ def fanout_wait_case(ctx, rng, k):
     n = rng.randint(2, 4)
     mc = rng.randint(1, n)
     dur = rng.choice([1, 2, 5, 10])
-    what = ["wait", "task-timeout", "wait-after-task"][k % 3]
+    what = ["wait", "task-timeout", "wait-after-task", "wait-only", "slow-then-wait-only"][k % 5]
     tz = TZS[k % len(TZS)]
     if what == "wait":
         proc = F.chain([("I1", F.W(dur)), ("I2", F.T("mark"))])
@@ -176,6 +176,13 @@ def fanout_wait_case(ctx, rng, k):
         proc = {"StartAt": "I1", "States": {"I1": dict(F.T("silent"), TimeoutSeconds=dur, Catch=[{"ErrorEquals": ["States.Timeout"], "ResultPath": "$.e", "Next": "I2"}], Next="I2"),
                                             "I2": dict(F.T("mark"), End=True)}}
         per_item = dur
+    elif what == "wait-only":
+        # the Wait is the iteration's only state: the event that re-enters the Map for the next batch stems from a state entered `dur` ago
+        proc = F.chain([("I1", F.W(dur))])
+        per_item = dur
+    elif what == "slow-then-wait-only":
+        proc = F.chain([("I1", F.W(dur)), ("I0", F.T("slow1"))])
+        per_item = dur + 1
     else:
         proc = F.chain([("I0", F.T("slow1")), ("I1", F.W(dur)), ("I2", F.T("mark"))])
         per_item = dur + 1
@@ -191,6 +198,11 @@ def fanout_wait_case(ctx, rng, k):
         got = sorted(round(r["t"], 6) for r in run.requests.get("mark", []))
         # batch b (0-based) starts when batch b-1 has finished: at b * per_item; its items reach "mark" per_item later
         want = sorted(round((i // mc + 1) * per_item, 6) for i in range(n))
+        if what in ("wait-only", "slow-then-wait-only"):
+            # no marker task: read the instants at which the Waits were left from the history
+            h = run.histories.get(run.execs[0]) or []
+            got = sorted(round(ev["timestamp"] - EPOCH0, 6) for ev in h if ev["type"] == "WaitStateExited")
+            want = sorted(round((i // mc) * per_item + dur, 6) for i in range(n))
         ctx.count("timers_fired_observed", len(got))
         st, out, err, t = run.outcomes.get(run.execs[0], ("NONE", None, None, None))
         wit = S.witness_of(run, dict(case=case, expected_instants=want, engine_instants=got, status=st, error=err))
